@@ -127,15 +127,22 @@ def _delay(when: dawgie.EVENT) -> datetime.timedelta:
     today = now.isoweekday() - 1
 
     if when.moment.boot is not None:
-        # algorithms compare equal when their versions do, so two algorithms
-        # of one factory need their names to tell their boot events apart
-        if any(
-            when == b and when.algref.impl.name() == b.algref.impl.name()
-            for b in booted
-        ):
+        # An event is remembered by what it names, not by its objects:
+        # algorithms compare equal when their versions do (two algorithms of
+        # one factory need their names to be told apart), and a reload of the
+        # AE makes new factory functions and algorithm instances for what is
+        # still the same boot event of the same process.
+        event = (
+            dawgie.util.task_name(when.algref.factory),
+            when.algref.factory.__name__,
+            when.algref.impl.name(),
+            when.moment,
+        )
+
+        if event in booted:
             raise _DelayNotKnowableError()
 
-        booted.append(when)
+        booted.append(event)
     else:
         if when.moment.day is not None:
             then = datetime.datetime(
